@@ -356,7 +356,15 @@ class ElementList(MutableSequence):
             self.replace_child(child_to_remove, child)
 
         # a set has been called, change the temporary parent to be the actual one
-        self.element.set_parent_to_traversal()
+        try:
+            self.element.set_parent_to_traversal()
+        except Exception:
+            # the element itself is refused by its parent: the assignment did not happen
+            if child_to_remove is None:
+                self.remove(child)
+            else:
+                self.replace_child(child, child_to_remove)
+            raise
 
     def remove(self, child):
         """
@@ -715,8 +723,9 @@ class Element(object):
 
     def set_parent_to_traversal(self):
         if self.traversal_parent and self.parent is None:
+            # the chain is attached from the top: an ancestor that is refused leaves nothing half attached
+            self.traversal_parent.set_parent_to_traversal()
             self.parent = self.traversal_parent
-            self.parent.set_parent_to_traversal()
         else:
             self.traversal_parent = None
 
